@@ -33,7 +33,7 @@ fn listed(p: &DcpsDomainParticipant, i: u8) -> usize {
 // @enc DcpsDomainParticipant::remove_discovered_participant
 // @enc DcpsDomainParticipant::time_until_stale_participant
 #[kani::proof]
-#[kani::unwind(4)]
+#[kani::unwind(2)]
 #[kani::stub(critical_section::acquire, super::support_cs::cs_acquire)]
 #[kani::stub(critical_section::release, super::support_cs::cs_release)]
 fn c17_stale_removal_one() {
@@ -70,14 +70,14 @@ fn c17_stale_removal_one() {
     core::mem::forget(p);
 }
 
-// @check props=C17 tier=quick
+// @check props=C17 tier=thorough
 // @desc remove_stale_participants(now) with two discovered participants (independent symbolic leases / last-communication times): each is removed iff ITS lease is exceeded, the other one stays, order of the survivors is kept; time_until_stale_participant(now) <= remaining lease of each
 // @bounds two discovered participants with distinct keys; full normalized domain with 0 <= last_i <= now, lease_i >= 0
 // @assume clock readings non-negative and non-decreasing; leases >= 0; participant keys distinct (add_discovered_participant replaces an entry with an equal key)
 // @enc DcpsDomainParticipant::remove_stale_participants
 // @enc DcpsDomainParticipant::remove_discovered_participant
 #[kani::proof]
-#[kani::unwind(4)]
+#[kani::unwind(3)]
 #[kani::stub(critical_section::acquire, super::support_cs::cs_acquire)]
 #[kani::stub(critical_section::release, super::support_cs::cs_release)]
 fn c17_stale_removal_two() {
@@ -138,7 +138,7 @@ fn has_reliable_proxy(w: &crate::rtps::stateful_writer::RtpsStatefulWriter) -> b
 // @assume stub: tracing LevelFilter::current() returns OFF (process without a tracing subscriber; otherwise #[tracing::instrument] Debug-formats the announcement)
 // @enc DcpsDomainParticipant::add_discovered_participant
 #[kani::proof]
-#[kani::unwind(4)]
+#[kani::unwind(2)]
 #[kani::stub(critical_section::acquire, super::support_cs::cs_acquire)]
 #[kani::stub(critical_section::release, super::support_cs::cs_release)]
 #[kani::stub(tracing::level_filters::LevelFilter::current, super::support_qos::tracing_off)]
@@ -221,7 +221,7 @@ fn c17_spdp_add() {
 // @enc DcpsDomainParticipant::remove_discovered_participant
 // @enc DcpsDomainParticipant::add_discovered_participant
 #[kani::proof]
-#[kani::unwind(4)]
+#[kani::unwind(3)]
 #[kani::stub(critical_section::acquire, super::support_cs::cs_acquire)]
 #[kani::stub(critical_section::release, super::support_cs::cs_release)]
 #[kani::stub(crate::dcps::dcps_domain_participant::participant_entity::DcpsDomainParticipant::announce_participant, super::support_part1::announce_participant_stub)]
@@ -265,7 +265,7 @@ fn c17_spdp_ignored() {
 // @bounds one discovered participant
 // @enc DcpsDomainParticipant::ignore_participant
 #[kani::proof]
-#[kani::unwind(4)]
+#[kani::unwind(2)]
 #[kani::stub(critical_section::acquire, super::support_cs::cs_acquire)]
 #[kani::stub(critical_section::release, super::support_cs::cs_release)]
 #[kani::stub(tracing::level_filters::LevelFilter::current, super::support_qos::tracing_off)]
